@@ -131,7 +131,7 @@ def long_error_spans():
 
 def run(chk, tier, seed):
     rnd = random.Random(seed)
-    n_soup, n_mut = (1500, 1200) if tier == "quick" else (20000, 15000)
+    n_soup, n_mut = (1500, 1200) if tier == "quick" else (8000, 6000)
     r = vf.tlc("XrSoup", "XrSoup.cfg", "c12-soup", simulate=n_soup, depth=30, seed=seed)
     chk.add_tlc(r)
     texts = ["".join(c) for c in r.cases()]
